@@ -8,7 +8,15 @@
 (* the violation — the narrow signature — when they predict exactly this failure for this query,   *)
 (* (b) report drift between their prediction and lopdf's result, (c) predict, before a document is *)
 (* executed, which queries will not return (pbad), so that the harness can budget its time-outs.   *)
+(* Since every confirmed deviation is repaired (all Dev_ switches FALSE in the cfg) the walkers as  *)
+(* the code is predict no failure; a second instance of the walkers with every switch TRUE          *)
+(* (Old: the repaired defects) is consulted only for an observation the current walkers do not      *)
+(* explain, so that a defect that comes back is reported under its own signature.                   *)
 EXTENDS Queries, Json, IOUtils, TLC
+
+Old == INSTANCE Queries WITH Dev_NextCycle <- TRUE, Dev_FirstCycle <- TRUE, Dev_KidsCycle <- TRUE,
+                             Dev_DestIndex <- TRUE, Dev_NdUnwrapD <- TRUE, Dev_NdKeyStr <- TRUE,
+                             Dev_NdValIndex <- TRUE, Dev_CsIndex <- TRUE, Dev_SizeHint <- TRUE
 
 Recs == ndJsonDeserialize(IOEnv.TRACE)
 
@@ -28,6 +36,14 @@ Pred(d) ==
      deref |-> [i \in Ids(d) |-> DerefRun(d, DerefInit(Ref(i))).pc],
      cont  |-> [i \in Ids(d) |-> ContRun(d, ContInit(d, i)).out],
      rsrc  |-> [i \in Ids(d) |-> LET r == RsrcRun(d, RsrcInit(d, i)) IN [t |-> r.pc, ids |-> r.ids]]]
+
+\* the same predictions by the walkers with the repaired defects switched back on (only the fields Sig reads)
+PredOld(d) ==
+    [outl  |-> Fin(Old!OutRun(d, Old!OutInit(d))),
+     toc   |-> Fin(Old!TocRun(d, Old!OutInit(d))),
+     pages |-> LET r == Old!PgRun(d, Old!PgInit(d)) IN [pc |-> r.pc, cls |-> r.cls, ids |-> r.out],
+     nd    |-> [i \in Ids(d) |-> LET t == Old!GetDictionary(d, i) IN IF t = None THEN NA ELSE Fin(Old!NdRun(d, Old!NdInit(t)))],
+     img   |-> [i \in Ids(d) |-> Fin(Old!ImgRun(d, Old!ImgInit(d, i)))]]
 
 \* the public calls that start with get_pages() / page_iter().collect()
 PageQueries == {"get_pages", "page_iter", "extract_text", "extract_text_chunks", "get_object_page"}
@@ -58,12 +74,19 @@ PBad(d, p) ==
 \* signature of one observation: the model's class if the model predicts this very failure, else generic.
 \* q = "all" is a whole-document run that was lost and (time budget) not attributed to one query: it takes
 \* the class of the first predicted failure of that kind on this document, if there is one.
-Sig(d, p, o) ==
+SigBy(d, p, o) ==
     LET pr   == About(d, p, o)
         pb   == PBad(d, p)
         hits == {j \in 1..Len(pb) : Explains(pb[j], o.kind)}
-    IN IF o.q = "all" THEN (IF hits = {} THEN "all." \o o.kind ELSE pb[CHOOSE j \in hits : \A k \in hits : j <= k].cls)
-       ELSE IF Explains(pr, o.kind) THEN pr.cls ELSE o.q \o "." \o o.kind
+    IN IF o.q = "all" THEN (IF hits = {} THEN "" ELSE pb[CHOOSE j \in hits : \A k \in hits : j <= k].cls)
+       ELSE IF Explains(pr, o.kind) THEN pr.cls ELSE ""
+
+\* first the walkers as the code is, then (regression of a repaired defect) the walkers with the old deviations
+Sig(d, p, o) ==
+    LET now == SigBy(d, p, o) IN
+    IF now # "" THEN now
+    ELSE LET was == SigBy(d, PredOld(d), o) IN
+         IF was # "" THEN was ELSE (IF o.q = "all" THEN "all." ELSE o.q \o ".") \o o.kind
 
 IsTag(t) == t \in {"ok", "err"}
 
@@ -90,7 +113,8 @@ Judge(rec) ==
     IN [v     |-> IF Len(rec.obs) > 0 THEN "bad" ELSE IF dr > 0 THEN "ok-drift" ELSE "ok",
         sigs  |-> sigs,
         drift |-> dr,
-        pbad  |-> PBad(d, p)]
+        pbad  |-> PBad(d, p),
+        pwas  |-> PBad(d, PredOld(d))]     \* calls the repaired defects would have broken (anti-vacuity of the document set)
 
 Init == l = 1
 Next == /\ l <= Len(Recs)
